@@ -1170,6 +1170,19 @@ def _datom(a, datom, memo):
 # --------------------------------------------------------------------------- numeric witnesses
 
 
+def _round(x):
+    if x != x:
+        return "nan"
+    if x == 0:
+        return 0.0
+    return float(f"{x:.6e}")
+
+
+def _prf(kind, args, seed):
+    rnd = random.Random(repr((seed, kind, args)))
+    return rnd.uniform(0.3, 1.7)
+
+
 def evalf(e, env=None, seed=0):
     """Evaluate a normal form at a pseudo-random real point (witness for non-identities).
     env maps Atom -> float for free atoms; missing atoms get values derived from (seed, atom id)."""
@@ -1223,10 +1236,22 @@ def evalf(e, env=None, seed=0):
                 except Exception:
                     v = float("nan")
             else:
-                rnd = random.Random(hash((seed, "fn", a.id)))
-                v = rnd.uniform(0.3, 1.7)
+                # uninterpreted function: a pseudo-random but *functional* value of the evaluated arguments,
+                # so that semantically equal arguments (e.g. a let atom and its definition) agree
+                v = _prf(a.kind, tuple(argval(g) for g in a.args), seed)
         memo[a] = v
         return v
+
+    def argval(g):
+        if isinstance(g, E):
+            return _round(val(g))
+        if isinstance(g, Atom):
+            return _round(val_atom(g))
+        if isinstance(g, (tuple, list)):
+            return tuple(argval(x) for x in g)
+        if isinstance(g, Fr):
+            return _round(float(g))
+        return g
 
     def val(x):
         if isinstance(x, (int, float)):
